@@ -24,7 +24,7 @@ import zeroconf  # noqa: E402
 
 print("zeroconf from", zeroconf.__file__)
 t = time.time()
-res = H.run({"tier": tier, "seed": seed, "widened": False, "driver_ok": drv, "stages": {}, "drift": []})
+res = H.run({"tier": tier, "seed": seed, "widened": os.environ.get("WIDE","0")=="1", "driver_ok": drv, "stages": {}, "drift": []})
 print("seed", seed, "evaluations", res.evaluations, "disagreements", len(res.disagreements), "violations", len(res.violations), "%.0fs" % (time.time() - t))
 sigs = {}
 for v in res.violations:
